@@ -123,8 +123,10 @@ def translate(sources: dict | None = None, pins: dict | None = None):
                  "self._dryrun", "not job.task.script"]
     if order != exp_order:
         fail(f"_exec_job_main_thread: order of decisions changed: {order}", ex)
-    if not any(src(s) == "self._pending_jobs[job.eval_hash, job.context_hash] = job" for s in ex.body):
-        fail("_exec_job_main_thread: registration in _pending_jobs not found", ex)
+    reg_overwrite = any(src(s) == "self._pending_jobs[job.eval_hash, job.context_hash] = job" for s in ex.body)
+    reg_absent = any(src(s) == "self._pending_jobs.setdefault((job.eval_hash, job.context_hash), job)" for s in ex.body)
+    if reg_overwrite == reg_absent:
+        fail("_exec_job_main_thread: registration in _pending_jobs not recognised", ex)
 
     # ---- _finalize_job ------------------------------------------------------------------
     fin = find_func(mod, "_finalize_job", "Scheduler")
@@ -140,6 +142,8 @@ def translate(sources: dict | None = None, pins: dict | None = None):
         pop_own = True
     else:
         fail(f"_finalize_job: unrecognised pop {fb[3]!r}", fin)
+    if pop_own != reg_absent:
+        fail("_pending_jobs: registration and removal disagree (one is owner-safe, the other is not)")
 
     # ---- context filter of the CSE / call-node lookups -------------------------------
     db = load("redun/backends/db/__init__.py", sources.get("redun/backends/db/__init__.py"))
@@ -171,12 +175,12 @@ def translate(sources: dict | None = None, pins: dict | None = None):
                 fail(f"{k}: shape changed (pin {got.get(k)} != {v}); the hand-written job machine may no longer match")
 
     b = lambda x: "true" if x else "false"
-    variant = {"release_if_holds": g1 == "holds", "recheck_on_skip": r1, "ctx_strict": filt[0], "pop_own_only": pop_own}
+    variant = {"release_if_holds": g1 == "holds", "recheck_on_skip": r1, "ctx_strict": filt[0], "pending_owner_safe": pop_own}
     text = ("(* GENERATED by translate/tr_sched.py from /repo/redun/scheduler.py and backends/db/__init__.py *)\n"
             "From RV Require Import Model.JobMachine.\n"
             f"Definition gen_variant : variant := {{| release_if_holds := {b(variant['release_if_holds'])}; "
             f"recheck_on_skip := {b(variant['recheck_on_skip'])}; ctx_strict := {b(variant['ctx_strict'])}; "
-            f"pop_own_only := {b(variant['pop_own_only'])} |}}.\n")
+            f"pending_owner_safe := {b(variant['pending_owner_safe'])} |}}.\n")
     return text, variant, got
 
 
